@@ -6,6 +6,7 @@ import MambaVerif.Model.Wire
 import MambaVerif.Model.PyExpr
 import MambaVerif.Model.Ty
 import MambaVerif.Model.Range
+import MambaVerif.Props.C02
 
 open MV
 
@@ -48,6 +49,12 @@ def handle (mode : String) (payload : String) : String :=
         hexOfBytes (renderToks ts).toUTF8 ++ "\t" ++ parsed
       | none => "bad core"
     | none => "bad sexp"
+  | "commadelim" =>
+    -- payload: space separated hex items; result: hex of C02.commaDelimited
+    let items := (payload.splitOn " ").filter (· != "") |>.map (fun h => if h == "-" then some "" else unhexString h)
+    if items.all Option.isSome then
+      hexOfChars (MV.C02.commaDelimited (items.map fun i => (i.getD "").toList))
+    else "bad hex"
   | "range" =>
     match payload.splitOn " " with
     | [a, b, c, d] =>
